@@ -63,11 +63,11 @@ func Nested(t *ref.T) any {
 // TensorOf on nested data (no other operation involved); higher ranks through
 // TensorOf(flat) + Reshape + ResetGradContext.
 //
-// An UNTRACKED tensor of rank 1..4 is, for 9 in 15 value sets (chosen by a hash of the values, so a case replays
+// An UNTRACKED tensor of rank 1..4 is, for 10 in 16 value sets (chosen by a hash of the values, so a case replays
 // identically), not built directly but obtained as a RESULT: Reshape of the flat data, Slice out of a padded tensor,
 // Concat of two parts, or directly but with NElems / Shape / Sum asked for first. By C08 such a result is a plain
 // untracked value, indistinguishable from a leaf; every check thereby also runs on operands that have a history.
-// Further provenances: a Zeros / Full / Eye tensor completely overwritten by Patch a gradient tensor adopted as data after ResetGradContext(false) (9 value sets in 15 are derived in all).
+// Further provenances: a Zeros / Full / Eye tensor completely overwritten by Patch a gradient tensor adopted as data after ResetGradContext(false) the result of a reducer over an inserted size-1 dimension (10 value sets in 16 are derived in all).
 func Leaf(t *ref.T, tracked bool) (tensor.Tensor, error) {
 	if !tracked && len(t.Shape) >= 1 && len(t.Shape) <= 4 && len(t.Data) <= 4096 && !plainLeaves {
 		if x, err := derivedLeaf(t); x != nil || err != nil {
@@ -78,6 +78,18 @@ func Leaf(t *ref.T, tracked bool) (tensor.Tensor, error) {
 }
 
 var plainLeaves = os.Getenv("VERIF_PLAIN_LEAVES") != ""
+
+// LeafProv builds an untracked tensor holding t's values with the provenance number sel (0..15, see derivedLeaf); where that
+// provenance does not apply to t (rank 0, NaN data, ...) the tensor is built directly.
+func LeafProv(t *ref.T, sel int) (tensor.Tensor, error) {
+	if len(t.Shape) >= 1 && len(t.Shape) <= 4 && len(t.Data) <= 4096 {
+		h := uint64(sel%16)<<20 | uint64(sel/16%2)<<44 | uint64(sel)<<40
+		if x, err := derivedFrom(t, h); x != nil || err != nil {
+			return x, err
+		}
+	}
+	return directLeaf(t, false)
+}
 
 func derivedLeaf(t *ref.T) (tensor.Tensor, error) {
 	h := uint64(1469598103934665603)
@@ -90,6 +102,10 @@ func derivedLeaf(t *ref.T) (tensor.Tensor, error) {
 		}
 		h = (h ^ math.Float64bits(v)) * 1099511628211
 	}
+	return derivedFrom(t, h)
+}
+
+func derivedFrom(t *ref.T, h uint64) (tensor.Tensor, error) {
 	touch := func(x tensor.Tensor) {
 		_ = x.NElems()
 		sh := x.Shape()
@@ -100,7 +116,7 @@ func derivedLeaf(t *ref.T) (tensor.Tensor, error) {
 	}
 	n0 := t.Shape[0]
 	row := len(t.Data) / n0
-	switch (h >> 20) % 15 {
+	switch (h >> 20) % 16 {
 	case 6: // Reshape of the flat data
 		f, err := tensor.TensorOf(append([]float64(nil), t.Data...), Conf(false))
 		if err != nil {
@@ -142,9 +158,9 @@ func derivedLeaf(t *ref.T) (tensor.Tensor, error) {
 		var base tensor.Tensor
 		var err error
 		switch {
-		case (h>>20)%15 == 12 && len(t.Shape) == 2 && t.Shape[0] == t.Shape[1]:
+		case (h>>20)%16 == 12 && len(t.Shape) == 2 && t.Shape[0] == t.Shape[1]:
 			base, err = tensor.Eye(t.Shape[0], Conf(false))
-		case (h>>20)%15 == 11:
+		case (h>>20)%16 == 11:
 			base, err = tensor.Full(ref.CopyInts(t.Shape), t.Data[0], Conf(false))
 		default:
 			base, err = tensor.Zeros(ref.CopyInts(t.Shape), Conf(false))
@@ -164,6 +180,23 @@ func derivedLeaf(t *ref.T) (tensor.Tensor, error) {
 			idx[i] = tensor.Range{From: 0, To: d}
 		}
 		return base.Patch(idx, src)
+	case 14: // the result of a reducer over a size-1 dimension inserted before the last one (Max / Min of one element is that element)
+		for _, v := range t.Data {
+			if v != v {
+				return nil, nil // NaN: what an order statistic makes of it is not this harness's business
+			}
+		}
+		r := len(t.Shape)
+		big := append(ref.CopyInts(t.Shape[:r-1]), 1, t.Shape[r-1])
+		src, err := directLeaf(ref.New(big, t.Data), false)
+		if err != nil {
+			return nil, err
+		}
+		touch(src)
+		if (h>>44)%2 == 0 {
+			return src.MaxAlong(r - 1)
+		}
+		return src.MinAlong(r - 1)
 	case 13: // a GRADIENT tensor adopted as data: d(ones * c)/d(ones) = c exactly; ResetGradContext(false) makes it a fresh untracked leaf
 		ones, err := tensor.Ones(ref.CopyInts(t.Shape), Conf(true))
 		if err != nil {
